@@ -516,7 +516,7 @@ func filterJoin(in *Value, param *Value) (*Value, *Error) {
 		return in, nil
 	}
 	sep := param.String()
-	if sep == "" {
+	if sep == "" && in.IsString() {
 		// An empty string separator returns the input string.
 		return AsValue(in.String()), nil
 	}
